@@ -31,7 +31,7 @@ def setup_symbolic(case):
     C.setup_symbolic(case['params']['struct']['tier'])
 
 
-def alias_case(ctx, struct, ops, cplx=False, subset='all', prestate='sorted'):
+def alias_case(ctx, struct, ops, cplx=False, subset='all', prestate='sorted', write_groups=4):
     W = C.World(ctx, struct, cplx=cplx, subset=subset, prestate=prestate)
     name, v = ops[ctx.choice('op', len(ops))]
     tag = name if v == 'd' else f'{name}/{v}'
@@ -82,7 +82,7 @@ def alias_case(ctx, struct, ops, cplx=False, subset='all', prestate='sorted'):
         return
     else:
         ctx.prove(all(R is not o for o in operands), f'{tag}: returns a new object')
-    C.write_through(ctx, W, R, tag, check)
+    C.write_through(ctx, W, R, tag, check, groups=write_groups)
 
 
 def CASES(tier, seed):
@@ -94,17 +94,24 @@ def CASES(tier, seed):
         first_pattern = st['legs'][0]['qconj'] == 1 and st['legs'][1]['qconj'] == -1
         if tier == 'quick' and not first_pattern:
             continue
-        ops = opsA if tier == 'thorough' else [o for o in opsA if P1.COST_A.get(tuple(o), 1.5) < 30]
+        ops = [o for o in opsA if P1.COST_A.get(tuple(o), 1.5) < (P1.HEAVY if st['mods'][0] != 3 else 3)]
+        if tier == 'thorough':
+            from props.c02_invariants import CORE_OPS
+            ops = opsA if first_pattern else [o for o in opsA if tuple(o) in CORE_OPS]
         for ci, chunk in enumerate(P1._balanced(ops, P1.COST_A, 10)):
             cases.append(dict(name=f"A[mod={st['mods']},qconj={[l['qconj'] for l in st['legs']]}]ops{ci}:{P1._opsname(chunk)}",
                               fn='alias_case', params=dict(struct=st, ops=chunk, cplx=(si % 4 == 0), subset='all',
-                                                           prestate='sorted' if si % 4 else 'reversed'), opts=OA))
-    OB = dict(max_paths=8000, max_wall_s=200, validate_paths=3, hard_timeout_s=230)
+                                                           prestate='sorted' if si % 4 else 'reversed',
+                                                           write_groups=2 if tier == 'quick' else 4), opts=OA))
+    OB = dict(max_paths=40000, max_wall_s=200 if tier == 'quick' else 1500, validate_paths=3, hard_timeout_s=230 if tier == 'quick' else 1700)
     for si, st in enumerate(P1.structs_B(tier, seed)):
-        for ci, chunk in enumerate(P1._chunks(opsB, 40)):
+        if tier == 'quick' and si not in (0, 1, 2, 4, 7, 8, 9):
+            continue
+        for ci, chunk in enumerate(P1._chunks(opsB, 14)):
             cases.append(dict(name=f"B[{si},mod={st['mods']},rank={st['rank']}]ops{ci}:{P1._opsname(chunk)}",
                               fn='alias_case', params=dict(struct=st, ops=chunk, cplx=(si % 2 == 1), subset='draw' if si % 3 else 'all',
-                                                           prestate=['sorted', 'reversed'][si % 2]), opts=OB))
+                                                           prestate=['sorted', 'reversed'][si % 2], write_groups=2 if tier == 'quick' else 4),
+                              opts=OB))
     slow = float(__import__('os').environ.get('VERIF_SLOW', '1') or 1)  # development on a loaded machine only
     if slow != 1:
         for c in cases:
